@@ -191,6 +191,38 @@ Proof.
   - apply Z.eqb_refl.
 Qed.
 
+Lemma jump_invalid_keep_drops_only_unsat : forall r, jump_invalid_keep r = false -> r = 0.
+Proof. intros r H. unfold jump_invalid_keep in H. apply negb_false_iff in H. apply Z.eqb_eq in H. exact H. Qed.
+
+Lemma jump_invalid_cond_spec : forall valid (dst : V -> Z) v, jump_invalid_cond V valid dst v = true <-> ~ In (dst v) valid.
+Proof. intros valid dst v. exact (is_empty_spec dst valid v). Qed.
+
+(* the halting branch only describes inputs whose destination is invalid *)
+Lemma jump_invalid_sound : forall valid dst c v,
+  jump_invalid_alternative V chk valid dst = Some c -> c v = true -> ~ In (dst v) valid.
+Proof.
+  intros valid dst c v H Hc. unfold jump_invalid_alternative in H.
+  destruct (jump_alternatives V chk valid dst); [|discriminate].
+  destruct (jump_invalid_keep _); [|discriminate]. injection H as <-.
+  apply jump_invalid_cond_spec. exact Hc.
+Qed.
+
+(* every valuation of the path is covered: by the branch of its (valid) destination or by the halting branch *)
+Lemma jump_complete : forall valid dst l v,
+  oracle_sound -> path v -> jump_alternatives V chk valid dst = Some l ->
+  (exists t c, In (t, c) l /\ c v = true) \/
+  (exists c, jump_invalid_alternative V chk valid dst = Some c /\ c v = true).
+Proof.
+  intros valid dst l v Hor Hp H.
+  destruct (in_dec Z.eq_dec (dst v) valid) as [Hin|Hnin].
+  - left. exact (jump_complete_valid valid dst l v Hor Hp Hin H).
+  - right. exists (jump_invalid_cond V valid dst).
+    assert (Hc : jump_invalid_cond V valid dst v = true) by (apply jump_invalid_cond_spec; exact Hnin).
+    split; [|exact Hc]. unfold jump_invalid_alternative. rewrite H.
+    rewrite (keep_of_holds jump_invalid_keep (jump_invalid_cond V valid dst) v jump_invalid_keep_drops_only_unsat Hor Hp Hc).
+    reflexivity.
+Qed.
+
 (* ------------------------------------------------------------------ vm.assert* / vm.assume *)
 
 (* every input on which the asserted relation is false is covered by an alternative that ENDS AS A
@@ -273,15 +305,17 @@ Proof.
   destruct Hin as [H | [H | []]]; inversion H; subst; reflexivity.
 Qed.
 
-(* with --symbolic-jump a valuation that jumps to an invalid destination is covered by no branch as
-   soon as some valid destination is feasible: the halting outcome is not reported *)
-Lemma jump_invalid_destination_dropped :
-  exists (valid : list Z) (dst : bool -> Z) (chk : cnd bool -> Z) (v : bool) l,
+(* regression example for the former finding C02-symbolic-jump-invalid-destination (repaired in /repo): one valid
+   destination is feasible and the valuation jumps elsewhere -- no valid branch covers it, the halting branch does *)
+Lemma jump_invalid_destination_covered :
+  exists (valid : list Z) (dst : bool -> Z) (chk : cnd bool -> Z) (v : bool) l c,
     (forall c, chk c = 0 -> forall v', c v' = false) /\
     ~ In (dst v) valid /\ jump_alternatives bool chk valid dst = Some l /\
-    forall t c, In (t, c) l -> c v = false.
+    (forall t c, In (t, c) l -> c v = false) /\
+    jump_invalid_alternative bool chk valid dst = Some c /\ c v = true.
 Proof.
-  exists [3], (fun b : bool => if b then 3 else 4), (fun _ => 2), false, [(3, fun v0 : bool => (if v0 then 3 else 4) =? 3)].
+  exists [3], (fun b : bool => if b then 3 else 4), (fun _ => 2), false, [(3, fun v0 : bool => (if v0 then 3 else 4) =? 3)],
+         (jump_invalid_cond bool [3] (fun b : bool => if b then 3 else 4)).
   split; [intros c H; discriminate|]. split; [intros [H | []]; discriminate|]. split; [reflexivity|].
-  intros t c [H | []]. inversion H; subst. reflexivity.
+  split; [intros t c [H | []]; inversion H; subst; reflexivity|]. split; reflexivity.
 Qed.
